@@ -458,6 +458,21 @@ fn parse_command(
 				group.format.unwrap(),
 				&command.input_filenames[0])?);
 		}
+
+		// Never write over one of the files being assembled
+		if let Some(ref output_filename) = group.output_filename
+		{
+			if !group.printout &&
+				command.input_filenames.contains(output_filename)
+			{
+				report.error(
+					format!(
+						"output filename `{}` is also an input file",
+						output_filename));
+
+				return Err(());
+			}
+		}
 	}
 
 
